@@ -4,7 +4,7 @@
 cd "$(dirname "$0")/.."
 props="$*"
 for d in seeded/*/; do
-  if grep -q '"superseded"' "$d/meta.json" 2>/dev/null; then continue; fi
+  if grep -q "\"superseded\"\|\"undetected\"" "$d/meta.json" 2>/dev/null; then continue; fi
   n=$(basename "$d"); p=${n%%-*}
   if [ -n "$props" ]; then case " $props " in *" $p "*) ;; *) continue;; esac; fi
   if grep -q '"detected_thorough"' "$d/meta.json" 2>/dev/null; then
